@@ -25,7 +25,7 @@ PROP = 'C06'
 EXPLANATION = ('C06: programs and histories are enumerated (all sequences up to a length bound over a fixed alphabet '
                'plus a seeded sample of longer ones); all points, seeds and vectors are independent symbols.')
 
-ALPHABET = ['F22', 'Fnd', 'F11', 'F32', 'PB', 'GRAD', 'JAC', 'HV', 'VH', 'VHV', 'JV', 'OTHER']
+ALPHABET = ['F22', 'Fnd', 'F11', 'F32', 'PB', 'GRAD', 'JAC', 'HV', 'VH', 'VHV', 'JV', 'OTHER', 'SAME']
 KINDS = {'F22': ('utpm', 2, 2), 'Fnd': 'nd', 'F11': ('utpm', 1, 1), 'F32': ('utpm', 3, 2)}
 
 
@@ -44,7 +44,23 @@ def do_call(ctx, algopy, A, prog, cg, fx, fy, step, k, state, fresh):
         xin = O.wrap(ctx, algopy, arg, X)
         out = cg.function([xin])[0]
         state['last'] = (arg, X) if KINDS[step] != 'nd' else None
+        state['obj'] = xin if KINDS[step] != 'nd' else None
         return 'forward', value_of(out, algopy)
+    if step == 'SAME':
+        # forward evaluation with the SAME input object as the previous forward call of this graph,
+        # its contents overwritten in place with new values (a caller re-using its argument buffer)
+        arg, X = make_value(ctx, prog, ('utpm', 2, 2), 'x%d_' % k)
+        new = O.wrap(ctx, algopy, arg, X)
+        obj = None if fresh else state.get('obj')
+        if obj is not None and tuple(obj.data.shape) == tuple(new.data.shape):
+            obj.data[...] = new.data
+            xin = obj
+        else:
+            xin = new
+        out = cg.function([xin])[0]
+        state['last'] = (arg, X)
+        state['obj'] = xin
+        return 'forward (argument object re-used)', value_of(out, algopy)
     if step == 'PB':
         if state.get('last') is None:
             arg, X = make_value(ctx, prog, ('utpm', 2, 2), 'x%d_' % k)
@@ -174,11 +190,14 @@ def histories(tier, seed):
     # the documented row-by-row Jacobian assembly: several sweeps after one forward evaluation
     hs.append(('F22', 'PB', 'PB'))
     hs.append(('F22', 'PB', 'PB', 'PB'))
+    # a caller that re-uses one argument object and overwrites its contents between calls
+    for h in (('F22', 'SAME'), ('F22', 'SAME', 'PB'), ('SAME', 'SAME'), ('F22', 'PB', 'SAME', 'PB'), ('SAME', 'GRAD', 'SAME')):
+        hs.append(h)
     return sorted(set(hs))
 
 
-PROGS_Q = ['lu(2x2)', 'cholesky(outer(x,x)+I)', 'x*x', 'sin(x)*x', 'x/(1+x*x)', 'sum(x*exp(x)/(1+x0*x1)+sin(x)*x[::-1])', 'tan(x)*x', 'buffer', 'buffer-overwrite', 'exp(dot)']
-PROGS_T = PROGS_Q + ['x[1:]*x[:-1]', 'log(sum sq)', 'prod', 'x**3', 'sqrt(x)*x[0]', 'expit', 'erf', 'x*x[::-1]']
+PROGS_Q = ['lu(2x2)', 'cholesky(outer(x,x)+I)', 'sqrt(x)*x[0]', 'x*x', 'sin(x)*x', 'x/(1+x*x)', 'sum(x*exp(x)/(1+x0*x1)+sin(x)*x[::-1])', 'tan(x)*x', 'buffer', 'buffer-overwrite', 'exp(dot)']
+PROGS_T = PROGS_Q + ['x[1:]*x[:-1]', 'log(sum sq)', 'prod', 'x**3', 'expit', 'erf', 'x*x[::-1]', 'x**2.5', 'reciprocal', 'log']
 
 
 def units(tier, seed):
@@ -194,11 +213,25 @@ def units(tier, seed):
             chosen = [('PB', 'PB'), ('F22', 'PB', 'PB'), ('PB', 'F11', 'PB'), ('F11', 'PB'), ('PB', 'OTHER', 'PB')]
         elif tier == 'quick':
             chosen = [h for h in hs if len(h) <= 2][:: 2 if pn not in ('tan(x)*x', 'buffer-overwrite', 'buffer') else 1]
-            chosen += [h for h in hs if len(h) > 2][:6] + [('F22', 'PB', 'PB')]
+            chosen += [h for h in hs if len(h) > 2][:6] + [('F22', 'PB', 'PB')] + [h for h in hs if 'SAME' in h][:5]
         elif True:
             chosen = hs if pn in PROGS_Q else [h for h in hs if len(h) <= 2] + rng.sample([h for h in hs if len(h) > 2], 30)
         for h in sorted(set(chosen)):
             out.append(Unit('C06/%s/%s' % (pn, '>'.join(h)), 'symx.props.c06', 'h_history', {'pname': pn, 'seq': list(h)}, dict(opts)))
+    # every program of the catalogue through the row-by-row pattern (one forward evaluation, two reverse sweeps):
+    # a pullback kernel that scribbles on the forward values or on its seed shows here
+    seen = set(progs)
+    for prog in PR.catalogue():
+        if prog.name in seen or 'slow' in prog.tags or 'heavy' in prog.tags or any(t.startswith('fac:') for t in prog.tags) or 'utpmonly' in prog.tags or 'clip' in prog.tags:
+            continue
+        if prog.name in ('sum(axis=0)', 'sum(square,axis=0)'):
+            continue     # known finding of C03 (pb_sum argument order)
+        branching = 'clip' in prog.tags or 'lu' in prog.tags or 'posdet' in prog.tags or prog.name in ('absolute', 'sign')
+        hsel = [('F22', 'PB', 'PB')] if tier == 'quick' else [('F22', 'PB', 'PB'), ('F22', 'PB', 'SAME', 'PB'), ('GRAD', 'PB', 'PB')]
+        if branching:
+            hsel = [('F11', 'PB', 'PB')]      # (one branch per element and direction: a single direction)
+        for h in hsel:
+            out.append(Unit('C06/%s/%s' % (prog.name, '>'.join(h)), 'symx.props.c06', 'h_history', {'pname': prog.name, 'seq': list(h)}, dict(opts)))
     # using a finished graph while another one is being recorded is part of a call history too
     for what in ('function', 'gradient', 'pushforward+pullback'):
         out.append(Unit('C06/another graph used while recording (%s)' % what, 'symx.props.c05', 'h_interleaved',
